@@ -150,6 +150,38 @@ def worker(job):
             if gf.elems != f.elems:
                 problems.append(("invariance", "filter %d of the family is not fixed by the group element %s" % (i, g), None))
                 break
+    # the k-dependent sign rectification is evaluated exactly on every generated filter: it must return a
+    # non-zero multiple of the filter (sign(0) = 0 style slips zero a filter and shrink the span)
+    geom = it.get_module(GEOM)
+    rect = "decided"
+    for i, r in enumerate(rows):
+        if all(e == 0 for e in r):
+            continue
+        f0 = attempt(lambda: geom.GeometricFilter(A.Arr(shape, list(r), "float"), p, D))
+        if isinstance(f0, Rejected):
+            problems.append(("rejected", "GeometricFilter rejected a generated filter: %s" % f0.exc, None))
+            break
+        try:
+            fr = attempt(lambda: f0.rectify())
+        except Unsupported:
+            rect = "undecided"
+            break
+        if isinstance(fr, Rejected):
+            problems.append(("rectify", "rectify raised on filter %d: %s" % (i, fr.exc), None))
+            break
+        d = fr.data
+        if not isinstance(d, A.Arr) or d.shape != shape or not d.is_concrete():
+            rect = "undecided"
+            break
+        j0 = [j for j, e in enumerate(r) if e != 0][0]
+        c = Fraction(d.elems[j0]) / Fraction(r[j0])
+        if c == 0 or any(Fraction(x) != c * Fraction(y) for x, y in zip(d.elems, r)):
+            problems.append(("rectify", "rectify does not return a non-zero multiple of filter %d of the family (factor %s): the family loses a member" % (i, c), None))
+            break
+        if (fr.k, fr.parity, fr.D) != (k, p % 2, D):
+            problems.append(("rectify", "rectify changes the type labels of filter %d to (k=%r, parity=%r, D=%r)" % (i, fr.k, fr.parity, fr.D), None))
+            break
+    cfg["rectify"] = rect
     rk = rank(rows) if rows else 0
     if rk != n:
         problems.append(("independence", "the %d generated filters span only a %d-dimensional space (duplicates or dependent filters)" % (n, rk), None))
@@ -374,6 +406,7 @@ def run(ctx):
         else:
             raise AnalysisError("get_unique_invariant_filters line %d: %s" % (line, what))
     ev.instances("C03.TAIL.statements", len(fn.body) - build_idx, floor=3)
+    rescale_undecided = []
     for q in ("GeometricFilter.rectify", "GeometricImage.normalize"):
         res, n = rescale_method_rule(ctx, q)
         ev.instances("C03.RESCALE.returns", n)
@@ -381,6 +414,8 @@ def run(ctx):
         for line, what, definite in res:
             if definite:
                 ctx.add(Finding("C03", "C03.RESCALE", q, what, pm.path(GI_MOD), line, None, "rescale"))
+            elif q == "GeometricFilter.rectify":
+                rescale_undecided.append(what)  # decided semantically below (exact evaluation on every filter)
             else:
                 raise AnalysisError(what)
     ev.floors["C03.RESCALE.returns"] = 5
@@ -420,11 +455,20 @@ def run(ctx):
     by = {}
     for job, r in ctx.pairs(worker, jobs):
         cfg = r["cfg"]
+        if cfg.get("rectify") == "undecided":
+            ev.extra["rectify_undecided"] = True
         ev.obligation("family", not r["problems"], tuple(cfg.values()) if cfg.get("fixed_space_dimension", 0) >= 1 and cfg["order"] > 1 else None, sample=cfg if ev.obligations % 13 == 0 else None)
         for kind, what, site in r["problems"]:
             by.setdefault(kind, []).append((what, site, cfg))
+    if rescale_undecided and ev.extra.get("rectify_undecided"):
+        raise AnalysisError(rescale_undecided[0])
+    ev.extra["rescale_notes"] = rescale_undecided
     for kind, items in sorted(by.items()):
         what, site, cfg = items[0]
+        if kind == "rectify":
+            fnr = pm.func(GI_MOD, "GeometricFilter.rectify")
+            ctx.add(Finding("C03", "C03.AXI.rectify", "GeometricFilter.rectify", "%s (%d of the swept configurations fail)" % (what, len(items)), pm.path(GI_MOD), fnr.lineno, cfg, kind))
+            continue
         ctx.add(Finding("C03", "C03.AXI." + kind, "get_unique_invariant_filters", "%s (%d of the swept configurations fail)" % (what, len(items)), path, fn.lineno, cfg, kind))
     ev.instances("C03.AXI.obligations", ev.obligations, floor=70 if ctx.tier == "quick" else 250)
     ev.exhaustive = th
